@@ -43,9 +43,10 @@ def random_points(rng, count):
         L = rng.randint(1, 50)
         a = [Fraction(rng.randint(-800, 800), 8) for _ in range(L)]
         x, t = [], Fraction(rng.randint(-50, 50))
+        jitter = rng.random() < 0.15          # almost evenly spaced (2^-20 of the step)
         for _ in range(L):
             x.append(t)
-            t += Fraction(rng.choice([1, 2, 3, 5, 8, 16]), 4)
+            t += (1 + Fraction(rng.choice([-1, 0, 1, 2]), 2 ** 20)) if jitter else Fraction(rng.choice([1, 2, 3, 5, 8, 16]), 4)
         yield a, x, rng.randint(1, 16), rng.choice(["both", "left", "right"])
 
 
